@@ -1,6 +1,6 @@
 //@ unit shape_narrow
 //@ serves C06 C04
-//@ must_verify Shape::narrow Shape::narrow_cached Shape::narrow_tuple_shapes_cached Shape::narrow_list_shapes_cached Shape::pos is_list_subset_cached is_tuple_subset_cached compat VIter::next verif_slice_iter verif_find
+//@ must_verify Shape::narrow Shape::narrow_cached Shape::narrow_tuple_shapes_cached Shape::narrow_list_shapes_cached Shape::pos Shape::with_pos Shape::type_name NarrowedShape::new_with_pos NarrowedShape::with_pos PositionedItem::new PositionedItem::new_with_pos PositionedItem::with_pos is_list_subset_cached is_tuple_subset_cached compat lemma_compat_lists lemma_compat_tuples lemma_compat_sym lemma_compat_sym_imp VIter::next verif_slice_iter verif_find
 //@ include prelude/head.rs
 use std::rc::Rc;
 use std::collections::BTreeMap;
@@ -10,300 +10,7 @@ verus! {
 //@ include prelude/constraint_rt_models.rs
 //@ include prelude/shape_narrow_models.rs
 
-// Positions are only cloned and stored (R5).
-//@ opaque Position
-//@ clone_spec Position
-
-//@ extract src/ast/mod.rs :: struct PositionedItem
-//@   rule R0
-//@ end
-//@ extract src/ast/mod.rs :: type TupleShape
-//@ end
-//@ extract src/ast/mod.rs :: struct FuncShapeDef
-//@   rule R0 RV
-//@ end
-//@ extract src/ast/mod.rs :: struct ModuleShape
-//@   rule R0 RV
-//@ end
-//@ extract src/ast/mod.rs :: enum ImportShape
-//@   rule R0
-//@ end
-//@ extract src/ast/mod.rs :: enum NarrowingShape
-//@   rule R0
-//@ end
-//@ extract src/ast/mod.rs :: struct NarrowedShape
-//@   rule R0
-//@ end
-//@ extract src/ast/mod.rs :: enum Shape
-//@   rule R0
-//@ end
-// R0: #[derive(Clone)] is structural
-//@ clone_spec Shape
-
-// R0: `#[derive(PartialEq)]` on Shape is not visible to Verus. `==` on two shapes (only used by the memo-cache lookup of the
-// ConstraintRef arm) is an uninterpreted function of the two.
-pub uninterp spec fn shape_same(a: Shape, b: Shape) -> bool;
-impl PartialEqSpecImpl for Shape {
-    open spec fn obeys_eq_spec() -> bool { true }
-    open spec fn eq_spec(&self, other: &Shape) -> bool { shape_same(*self, *other) }
-}
-impl PartialEq for Shape {
-    #[verifier::external_body]
-    fn eq(&self, other: &Shape) -> bool { unimplemented!() }
-}
-
-pub type Fields = Seq<(PositionedItem<Rc<str>>, Shape)>;
-
-// ---------- termination measure: number of Shape nodes (Func / Module / Import are leaves here) ----------
-pub open spec fn sz_list(v: Vec<Shape>, n: nat) -> nat
-    decreases v, n
-{
-    if n == 0 || n > v@.len() { 0 } else { sz(v@[n - 1]) + sz_list(v, (n - 1) as nat) }
-}
-pub open spec fn sz_fields(v: TupleShape, n: nat) -> nat
-    decreases v, n
-{
-    if n == 0 || n > v@.len() { 0 } else { sz(v@[n - 1].1) + sz_fields(v, (n - 1) as nat) }
-}
-pub open spec fn sz_ns(ns: NarrowedShape) -> nat
-    decreases ns
-{
-    match ns.types {
-        NarrowingShape::Narrowed(v) => sz_list(v, v@.len()),
-        NarrowingShape::Any => 0,
-    }
-}
-pub open spec fn sz(s: Shape) -> nat
-    decreases s
-{
-    match s {
-        Shape::List(ns) => 1 + sz_ns(ns),
-        Shape::Narrowed(ns) => 1 + sz_ns(ns),
-        Shape::Tuple(pi) => 1 + sz_fields(pi.val, pi.val@.len()),
-        _ => 1,
-    }
-}
-
-
-pub open spec fn seq_sz(s: Seq<Shape>) -> nat
-    decreases s.len()
-{
-    if s.len() == 0 { 0 } else { sz(s.last()) + seq_sz(s.drop_last()) }
-}
-pub open spec fn fields_sz(s: Fields) -> nat
-    decreases s.len()
-{
-    if s.len() == 0 { 0 } else { sz(s.last().1) + fields_sz(s.drop_last()) }
-}
-
-pub proof fn lemma_sz_list_elem(v: Vec<Shape>, n: nat, i: int)
-    requires 0 <= i < n <= v@.len()
-    ensures sz(v@[i]) <= sz_list(v, n)
-    decreases n
-{
-    if i < n - 1 { lemma_sz_list_elem(v, (n - 1) as nat, i); }
-}
-pub proof fn lemma_sz_fields_elem(v: TupleShape, n: nat, i: int)
-    requires 0 <= i < n <= v@.len()
-    ensures sz(v@[i].1) <= sz_fields(v, n)
-    decreases n
-{
-    if i < n - 1 { lemma_sz_fields_elem(v, (n - 1) as nat, i); }
-}
-pub proof fn lemma_sz_pos(s: Shape)
-    ensures sz(s) >= 1
-{ }
-
-// ---------- the oracle ----------
-// A Narrowed without candidates, `Any`, and a type hole put no constraint on the other side.
-pub open spec fn unconstrained(s: Shape) -> bool {
-    s is Hole || (s matches Shape::Narrowed(ns) && (ns.types matches NarrowingShape::Narrowed(v) ==> v@.len() == 0))
-}
-pub open spec fn cands(s: Shape) -> Seq<Shape>
-    recommends s is Narrowed
-{
-    match s { Shape::Narrowed(NarrowedShape { types: NarrowingShape::Narrowed(v), .. }) => v@, _ => Seq::empty() }
-}
-// element types of a list shape (None: unknown element type, `Any`)
-pub open spec fn elems(ns: NarrowedShape) -> Option<Seq<Shape>> {
-    match ns.types { NarrowingShape::Narrowed(v) => Some(v@), NarrowingShape::Any => None }
-}
-
-// Shapes the stubbed arms are about (the statement says nothing on functions and modules).
-pub uninterp spec fn func_compat(l: FuncShapeDef, r: FuncShapeDef) -> bool;
-pub uninterp spec fn module_compat(l: ModuleShape, r: ModuleShape) -> bool;
-// phase 2
-pub uninterp spec fn cref_compat(a: Shape, b: Shape) -> bool;
-
-// compat(a, b): exemplar shape a admits shape b (property C06, reference "Shape Constraints"):
-//  * a type error on either side is never admitted;
-//  * a hole / an unconstrained candidate set admits everything;
-//  * a candidate set admits what one of its candidates admits (and is admitted if one of its candidates is);
-//  * same primitive type;
-//  * tuples: every field of ONE side has a field of the same name on the other side whose type it agrees with
-//    (one field set contained in the other, shared fields agree);
-//  * lists: every element type of ONE side is admitted by some element type of the other side; a list of unknown
-//    element type (Any) and an empty list admit everything;
-//  * anything else is a mismatch (Int vs Float, tuple vs list ...).
-pub open spec fn compat(a: Shape, b: Shape) -> bool
-    decreases sz(a) + sz(b)
-    via compat_decreases
-{
-    if a is TypeErr || b is TypeErr { false }
-    else if a is ConstraintRef || b is ConstraintRef { cref_compat(a, b) }
-    else if unconstrained(a) || unconstrained(b) { true }
-    else if a is Narrowed { exists|i: int| 0 <= i < cands(a).len() && compat(#[trigger] cands(a)[i], b) }
-    else if b is Narrowed { exists|j: int| 0 <= j < cands(b).len() && compat(a, #[trigger] cands(b)[j]) }
-    else {
-        match (a, b) {
-            (Shape::Str(_), Shape::Str(_)) | (Shape::Boolean(_), Shape::Boolean(_))
-            | (Shape::Int(_), Shape::Int(_)) | (Shape::Float(_), Shape::Float(_)) => true,
-            (Shape::List(l), Shape::List(r)) => match (elems(l), elems(r)) {
-                (Some(ls), Some(rs)) =>
-                    (forall|i: int| 0 <= i < ls.len() ==> exists|j: int| 0 <= j < rs.len() && compat(#[trigger] ls[i], #[trigger] rs[j]))
-                    || (forall|j: int| 0 <= j < rs.len() ==> exists|i: int| 0 <= i < ls.len() && compat(#[trigger] rs[j], #[trigger] ls[i])),
-                _ => true,
-            },
-            (Shape::Tuple(l), Shape::Tuple(r)) => {
-                let lf = l.val@; let rf = r.val@;
-                (forall|i: int| 0 <= i < lf.len() ==> exists|j: int| 0 <= j < rf.len()
-                    && rf[j].0.val@ == lf[i].0.val@ && compat((#[trigger] lf[i]).1, (#[trigger] rf[j]).1))
-                || (forall|j: int| 0 <= j < rf.len() ==> exists|i: int| 0 <= i < lf.len()
-                    && lf[i].0.val@ == rf[j].0.val@ && compat((#[trigger] rf[j]).1, (#[trigger] lf[i]).1))
-            },
-            (Shape::Func(l), Shape::Func(r)) => func_compat(l, r),
-            (Shape::Module(l), Shape::Module(r)) => module_compat(l, r),
-            _ => false,
-        }
-    }
-}
-
-#[via_fn]
-proof fn compat_decreases(a: Shape, b: Shape)
-{
-    if a is Narrowed && !unconstrained(a) {
-        let v = a->Narrowed_0.types->Narrowed_0;
-        assert forall|i: int| 0 <= i < cands(a).len() implies sz(#[trigger] cands(a)[i]) < sz(a) by {
-            lemma_sz_list_elem(v, v@.len(), i);
-        }
-    }
-    if b is Narrowed && !unconstrained(b) {
-        let v = b->Narrowed_0.types->Narrowed_0;
-        assert forall|j: int| 0 <= j < cands(b).len() implies sz(#[trigger] cands(b)[j]) < sz(b) by {
-            lemma_sz_list_elem(v, v@.len(), j);
-        }
-    }
-    if a is List && b is List && elems(a->List_0) is Some && elems(b->List_0) is Some {
-        let lv = a->List_0.types->Narrowed_0;
-        let rv = b->List_0.types->Narrowed_0;
-        assert forall|i: int| 0 <= i < lv@.len() implies sz(#[trigger] lv@[i]) < sz(a) by { lemma_sz_list_elem(lv, lv@.len(), i); }
-        assert forall|j: int| 0 <= j < rv@.len() implies sz(#[trigger] rv@[j]) < sz(b) by { lemma_sz_list_elem(rv, rv@.len(), j); }
-    }
-    if a is Tuple && b is Tuple {
-        let lv = a->Tuple_0.val;
-        let rv = b->Tuple_0.val;
-        assert forall|i: int| 0 <= i < lv@.len() implies sz((#[trigger] lv@[i]).1) < sz(a) by { lemma_sz_fields_elem(lv, lv@.len(), i); }
-        assert forall|j: int| 0 <= j < rv@.len() implies sz((#[trigger] rv@[j]).1) < sz(b) by { lemma_sz_fields_elem(rv, rv@.len(), j); }
-    }
-}
-
-
-pub proof fn lemma_seq_sz_elem(s: Seq<Shape>, i: int)
-    requires 0 <= i < s.len()
-    ensures sz(s[i]) <= seq_sz(s)
-    decreases s.len()
-{
-    if i < s.len() - 1 { lemma_seq_sz_elem(s.drop_last(), i); }
-}
-pub proof fn lemma_fields_sz_elem(s: Fields, i: int)
-    requires 0 <= i < s.len()
-    ensures sz(s[i].1) <= fields_sz(s)
-    decreases s.len()
-{
-    if i < s.len() - 1 { lemma_fields_sz_elem(s.drop_last(), i); }
-}
-pub proof fn lemma_sz_list_seq(v: Vec<Shape>, n: nat)
-    requires n <= v@.len()
-    ensures sz_list(v, n) == seq_sz(v@.take(n as int))
-    decreases n
-{
-    if n > 0 {
-        lemma_sz_list_seq(v, (n - 1) as nat);
-        assert(v@.take(n as int).drop_last() =~= v@.take(n - 1));
-    }
-}
-pub proof fn lemma_sz_fields_seq(v: TupleShape, n: nat)
-    requires n <= v@.len()
-    ensures sz_fields(v, n) == fields_sz(v@.take(n as int))
-    decreases n
-{
-    if n > 0 {
-        lemma_sz_fields_seq(v, (n - 1) as nat);
-        assert(v@.take(n as int).drop_last() =~= v@.take(n - 1));
-    }
-}
-
-pub proof fn lemma_sz_ns_seq(ns: NarrowedShape)
-    ensures elems(ns) matches Some(xs) ==> sz_ns(ns) == seq_sz(xs)
-{
-    if let NarrowingShape::Narrowed(v) = ns.types { lemma_sz_list_seq(v, v@.len()); assert(v@.take(v@.len() as int) =~= v@); }
-}
-pub proof fn lemma_sz_tuple_seq(v: TupleShape)
-    ensures sz_fields(v, v@.len()) == fields_sz(v@)
-{
-    lemma_sz_fields_seq(v, v@.len()); assert(v@.take(v@.len() as int) =~= v@);
-}
-
-// no reference to a named constraint anywhere in the shape (phase 1; function and module shapes are opaque here)
-pub uninterp spec fn func_cref_free(d: FuncShapeDef) -> bool;
-pub uninterp spec fn module_cref_free(d: ModuleShape) -> bool;
-pub open spec fn cref_free(s: Shape) -> bool
-    decreases s
-{
-    match s {
-        Shape::ConstraintRef(_) => false,
-        Shape::List(ns) => cref_free_ns(ns),
-        Shape::Narrowed(ns) => cref_free_ns(ns),
-        Shape::Tuple(pi) => forall|i: int| 0 <= i < pi.val@.len() ==> cref_free((#[trigger] pi.val@[i]).1),
-        Shape::Func(d) => func_cref_free(d),
-        Shape::Module(d) => module_cref_free(d),
-        _ => true,
-    }
-}
-pub open spec fn cref_free_ns(ns: NarrowedShape) -> bool
-    decreases ns
-{
-    match ns.types {
-        NarrowingShape::Narrowed(v) => forall|i: int| 0 <= i < v@.len() ==> cref_free(#[trigger] v@[i]),
-        NarrowingShape::Any => true,
-    }
-}
-
-pub open spec fn admitted_by_some(x: Shape, ys: Seq<Shape>) -> bool {
-    exists|j: int| 0 <= j < ys.len() && compat(x, #[trigger] ys[j])
-}
-pub open spec fn list_sub_from(xs: Seq<Shape>, from: int, ys: Seq<Shape>) -> bool {
-    forall|k: int| from <= k < xs.len() ==> admitted_by_some(#[trigger] xs[k], ys)
-}
-pub open spec fn field_admitted(f: (PositionedItem<Rc<str>>, Shape), rf: Fields) -> bool {
-    exists|j: int| 0 <= j < rf.len() && rf[j].0.val@ == f.0.val@ && compat(f.1, (#[trigger] rf[j]).1)
-}
-pub open spec fn tuple_sub_from(lf: Fields, from: int, rf: Fields) -> bool {
-    forall|k: int| from <= k < lf.len() ==> field_admitted(#[trigger] lf[k], rf)
-}
-
-pub type Seen = Seq<(Rc<str>, Shape, Shape)>;
-pub type SymMap = Map<Rc<str>, Shape>;
-// the memo cache is untouched; the symbol table keeps exactly its names (entries of holes may be refined)
-pub open spec fn frame(st0: SymMap, st1: SymMap, seen0: Seen, seen1: Seen) -> bool {
-    st1.dom() =~= st0.dom() && seen1 == seen0
-}
-
-// what narrow_cached returns (phase 1)
-pub open spec fn narrow_post(a: Shape, b: Shape, r: Shape) -> bool {
-    &&& (r is TypeErr) == !compat(a, b)
-    &&& !(r is TypeErr) ==> (r == a || r == b)
-}
+//@ include prelude/shape_narrow_spec.rs
 
 // The Func/Func and Module/Module arms are NOT verified (function and module shapes are outside the property statement;
 // the recursion through BTreeMap values has no structural measure). They are cut off by an always-taken early return to
@@ -322,27 +29,6 @@ fn verif_narrow_module_arm(slf: &Shape, l: &ModuleShape, r: &ModuleShape, symbol
         frame(old(symbol_table)@, final(symbol_table)@, old(seen)@, final(seen)@),
 { unimplemented!() }
 
-pub proof fn lemma_cands(s: Shape)
-    ensures
-        s matches Shape::Narrowed(NarrowedShape { types: NarrowingShape::Narrowed(v), .. }) ==>
-            (forall|j: int| 0 <= j < v@.len() ==> sz(#[trigger] v@[j]) < sz(s))
-            && (cref_free(s) ==> forall|j: int| 0 <= j < v@.len() ==> cref_free(#[trigger] v@[j])),
-{
-    if let Shape::Narrowed(NarrowedShape { types: NarrowingShape::Narrowed(v), .. }) = s {
-        assert forall|j: int| 0 <= j < v@.len() implies sz(#[trigger] v@[j]) < sz(s) by { lemma_sz_list_elem(v, v@.len(), j); }
-        if cref_free(s) { assert(cref_free_ns(s->Narrowed_0)); }
-    }
-}
-// unfolding of cref_free for the two container shapes
-pub proof fn lemma_cref_free_parts(s: Shape)
-    requires cref_free(s)
-    ensures
-        s matches Shape::List(ns) ==> cref_free_ns(ns) && (elems(ns) matches Some(xs) ==> forall|j: int| 0 <= j < xs.len() ==> cref_free(#[trigger] xs[j])),
-        s matches Shape::Tuple(pi) ==> forall|j: int| 0 <= j < pi.val@.len() ==> cref_free((#[trigger] pi.val@[j]).1),
-{
-    if let Shape::List(ns) = s { assert(cref_free_ns(ns)); }
-}
-
 //@ extract src/ast/mod.rs :: impl Shape :: fn pos
 //@   ret r
 //@   sig <<<
@@ -350,8 +36,21 @@ pub proof fn lemma_cref_free_parts(s: Shape)
 //@   >>>
 //@ end
 
+//@ extract src/ast/mod.rs :: impl<T> PositionedItem<T> :: fn new
+//@ end
+//@ extract src/ast/mod.rs :: impl<T> PositionedItem<T> :: fn new_with_pos
+//@ end
+//@ extract src/ast/mod.rs :: impl<T> PositionedItem<T> :: fn with_pos
+//@   rule R4
+//@ end
+//@ extract src/ast/mod.rs :: impl NarrowedShape :: fn new_with_pos
+//@ end
+//@ extract src/ast/mod.rs :: impl NarrowedShape :: fn with_pos
+//@   rule R4
+//@ end
 //@ extract src/ast/mod.rs :: impl Shape :: fn with_pos
-//@   opaque_body
+//@ end
+//@ extract src/ast/mod.rs :: impl Shape :: fn type_name
 //@ end
 
 //@ extract src/ast/mod.rs :: impl Shape :: fn narrow_cached
@@ -378,7 +77,7 @@ pub proof fn lemma_cref_free_parts(s: Shape)
 //@   sig <<<
         requires cref_free(*self), cref_free(*right)
         ensures
-            narrow_post(*self, *right, r),
+            np_err(*self, *right, r), np_side(*self, *right, r), np_tuple(*self, *right, r), np_list(*self, *right, r),
             frame(old(symbol_table)@, final(symbol_table)@, old(seen)@, final(seen)@),
         decreases sz(*self) + sz(*right), 1nat
 //@   >>>
@@ -388,11 +87,12 @@ pub proof fn lemma_cref_free_parts(s: Shape)
 //@   >>>
 //@   loop 1 <<<
                     invariant
-                        i__c <= it__c@.len(), it__c@ == types@, other == right,
-                        forall|j: int| 0 <= j < types@.len() ==> sz(#[trigger] types@[j]) < sz(*self),
-                        forall|j: int| 0 <= j < types@.len() ==> cref_free(#[trigger] types@[j]),
-                        cref_free(*other),
-                        (compatible__v@.len() > 0) == (exists|j: int| 0 <= j < i__c && compat(#[trigger] types@[j], *other)),
+                        i__c <= it__c@.len(), it__c@ == cands(*self), other == right,
+                        forall|j: int| 0 <= j < cands(*self).len() ==> sz(#[trigger] cands(*self)[j]) < sz(*self),
+                        forall|j: int| 0 <= j < cands(*self).len() ==> cref_free(#[trigger] cands(*self)[j]),
+                        cref_free(*right),
+                        // some candidate tried so far admits the other side
+                        (compatible__v@.len() > 0) == (exists|j: int| 0 <= j < i__c && compat(#[trigger] cands(*self)[j], *right)),
                         frame(old(symbol_table)@, symbol_table@, old(seen)@, seen@),
                     decreases it__c@.len() - i__c
 //@   >>>
@@ -408,11 +108,11 @@ pub proof fn lemma_cref_free_parts(s: Shape)
 //@   >>>
 //@   loop 2 <<<
                     invariant
-                        i__c <= it__c@.len(), it__c@ == types@, other == self,
-                        forall|j: int| 0 <= j < types@.len() ==> sz(#[trigger] types@[j]) < sz(*right),
-                        forall|j: int| 0 <= j < types@.len() ==> cref_free(#[trigger] types@[j]),
-                        cref_free(*other),
-                        (compatible__v@.len() > 0) == (exists|j: int| 0 <= j < i__c && compat(*other, #[trigger] types@[j])),
+                        i__c <= it__c@.len(), it__c@ == cands(*right), other == self,
+                        forall|j: int| 0 <= j < cands(*right).len() ==> sz(#[trigger] cands(*right)[j]) < sz(*right),
+                        forall|j: int| 0 <= j < cands(*right).len() ==> cref_free(#[trigger] cands(*right)[j]),
+                        cref_free(*self),
+                        (compatible__v@.len() > 0) == (exists|j: int| 0 <= j < i__c && compat(*self, #[trigger] cands(*right)[j])),
                         frame(old(symbol_table)@, symbol_table@, old(seen)@, seen@),
                     decreases it__c@.len() - i__c
 //@   >>>
@@ -436,7 +136,9 @@ pub proof fn lemma_cref_free_parts(s: Shape)
 //@ end
 
 //@ extract src/ast/mod.rs :: impl Shape :: fn narrow_tuple_shapes_cached
-//@   mutant tuple_one_direction_only "} else if is_tuple_subset_cached(right_iter, left_slist, symbol_table, seen) {" => "} else if false {" expect narrow_tuple_shapes_cached
+//@   mutant tuple_one_direction_only "} else if is_tuple_subset_cached(left_iter, right_slist, symbol_table, seen) {" => "} else if false {" expect narrow_tuple_shapes_cached
+// the defect fixed by /scratch/patches/shape_narrow.patch: the tuple with FEWER fields was returned
+//@   mutant tuple_result_forgets_fields "if is_tuple_subset_cached(right_iter, left_slist, symbol_table, seen) { self.clone() } else if is_tuple_subset_cached(left_iter, right_slist, symbol_table, seen) { right.clone() }" => "if is_tuple_subset_cached(left_iter, right_slist, symbol_table, seen) { self.clone() } else if is_tuple_subset_cached(right_iter, left_slist, symbol_table, seen) { right.clone() }" expect narrow_tuple_shapes_cached
 //@   subst "left_slist.val.iter()" => "verif_slice_iter(&left_slist.val)"
 //@   subst "right_slist.val.iter()" => "verif_slice_iter(&right_slist.val)"
 //@   ret r
@@ -453,6 +155,7 @@ pub proof fn lemma_cref_free_parts(s: Shape)
         proof {
             lemma_sz_tuple_seq(left_slist.val); lemma_sz_tuple_seq(right_slist.val);
             lemma_cref_free_parts(*self); lemma_cref_free_parts(*right);
+            lemma_compat_tuples(*self, *right);
         }
 //@   >>>
 //@ end
@@ -476,6 +179,7 @@ pub proof fn lemma_cref_free_parts(s: Shape)
         proof {
             lemma_sz_ns_seq(*left_slist); lemma_sz_ns_seq(*right_slist);
             lemma_cref_free_parts(*self); lemma_cref_free_parts(*right);
+            lemma_compat_lists(*self, *right);
         }
 //@   >>>
 //@ end
